@@ -32,7 +32,7 @@ def run(rep, tier, seed):
     ok, info = check.proof_stage(rep, 'C14', THEOREMS, 'one item per line, fields, skipping, dispatch, whitespace over lib/G2OModel.v')
     rng = random.Random(seed + 14)
     quick = tier == 'quick'
-    ci = corr_g2o.run_import(rng, 240 if quick else 3000, 'c14_imp')
+    ci = corr_g2o.run_import(rng, 150 if quick else 3000, 'c14_imp')
     corr_ok = not ci['disagreements'] and not ci['coq_errors'] and ci['evaluations'] > 0
     rep.obligation('correspondence 4.4 (import): G2OModel evaluated in Coq agrees with Graph.from_g2o and the five loaders on %d files' % ci['evaluations'],
                    corr_ok, json.dumps((ci['disagreements'] + ci['coq_errors'])[:2], default=str)[:1500])
@@ -40,7 +40,7 @@ def run(rep, tier, seed):
     rep.cov['correspondence'] = {k: ci[k] for k in ('evaluations', 'agree', 'stats')}
     rep.cov['correspondence']['coq_errors'] = len(ci['coq_errors'])
     rep.cov['correspondence']['custom_edge_types'] = corr_g2o.CUSTOM_SRC
-    n, fails, st = corr_g2o.oracle_files(rng, 240 if quick else 3000)
+    n, fails, st = corr_g2o.oracle_files(rng, 150 if quick else 3000)
     rep.cov['oracle'] = st
     rep.obligation('direct oracle: independent regex parser vs Graph.from_g2o, and skip-invariance, on %d files' % n, not fails,
                    json.dumps(fails[:1], default=str)[:1500])
